@@ -35,6 +35,8 @@ void register_ops(const OpEntry* entries, int count) {
   if (g_ntables < 1024) g_tables[g_ntables++] = OpTable{entries, count};
 }
 void register_ops_inline(const OpEntry*, int) {}
+void clit_mark(char, const char*) {}
+void register_clits(const ClitEntry*, int) {}
 
 }  // namespace vrt
 
